@@ -220,7 +220,7 @@ var c08Exotic = []rune{'é', 'ß', 'ж', '日', '本', '🙂', ' ', ' ', '"',
 func c08Value(rnd *rand.Rand) string {
 	n := 1 + rnd.Intn(12)
 	rs := make([]rune, n)
-	for i := range rs {
+	for i := 0; i < n; i++ {
 		switch x := rnd.Intn(100); {
 		case x < 18:
 			rs[i] = '/'
@@ -228,8 +228,15 @@ func c08Value(rnd *rand.Rand) string {
 			rs[i] = '.'
 		case x < 62:
 			rs[i] = []rune(`[]=\ *`)[rnd.Intn(6)]
-		case x < 78:
+		case x < 74:
 			rs[i] = rune(c08Rest[rnd.Intn(len(c08Rest))])
+		case x < 80:
+			// printf-like sequences: a value must never be interpreted as a format
+			rs[i] = '%'
+			if i+1 < n {
+				i++
+				rs[i] = []rune("svdqx%!+#")[rnd.Intn(9)]
+			}
 		default:
 			rs[i] = c08Exotic[rnd.Intn(len(c08Exotic))]
 		}
